@@ -482,7 +482,7 @@ func init() {
 		ID:          "C05",
 		NumCases:    func(tier string, seed int64) int { return c05Sizes(tier) },
 		CaseTimeout: func(string) time.Duration { return 10 * time.Minute },
-		Rule: "one sub-input = one well-framed audio/video/metadata message with a hostile payload sent by an accepted reference publisher to the whole in-process server under one of 8 output configurations (all outputs, gop 0/1/2, dummy audio, single outputs, merge write): all 256 one-byte payloads × audio/video, 2..12-byte payloads over the codec-relevant first bytes × packet types, AVC/HEVC(classic+enhanced)/AAC sequence headers truncated at every offset and with corrupted inner lengths, all 2-byte ASCs, enhanced-RTMP headers with other fourccs, AVC sequence headers whose SPS announces huge counts (reference cycle, scaling lists, dimensions) and then ends, NAL length fields that lie (0, beyond the end, 2^31, 2^32−1), zero-length NALs, unknown codec ids, non-AMF metadata, large random payloads, extreme and backward timestamps, bit-flipped valid frames, codec switches mid-stream, metadata nested up to the 16 MiB message limit, and whole side sessions of well-formed messages in unusual orders (long audio run before the first key frame, inter frames before any key frame, late video, late audio, frames before headers, timestamps that stand still, single-media streams of 3–4 messages, headers only) × AVC / HEVC / enhanced HEVC. honest tiny NAL units of every H.264/H.265 type code incl. the RTP aggregation/fragmentation codes; RTMP/FLV/TS joiners attach between messages, RTSP (TCP and UDP) subscribers re-join mid-GOP every 10 messages so that the wait-for-key-frame path inspects the hostile NALs. " +
+		Rule: "one sub-input = one well-framed audio/video/metadata message with a hostile payload sent by an accepted reference publisher to the whole in-process server under one of 8 output configurations (all outputs, gop 0/1/2, dummy audio, single outputs, merge write): all 256 one-byte payloads × audio/video, 2..12-byte payloads over the codec-relevant first bytes × packet types, AVC/HEVC(classic+enhanced)/AAC sequence headers truncated at every offset and with corrupted inner lengths, all 2-byte ASCs, enhanced-RTMP headers with other fourccs, AVC sequence headers whose SPS announces huge counts (reference cycle, scaling lists, dimensions) and then ends, NAL length fields that lie (0, beyond the end, 2^31, 2^32−1), zero-length NALs, unknown codec ids, non-AMF metadata, large random payloads, extreme and backward timestamps, bit-flipped valid frames, codec switches mid-stream, metadata nested up to the 16 MiB message limit, and whole side sessions of well-formed messages in unusual orders (long audio run before the first key frame, inter frames before any key frame, late video, late audio, frames before headers, timestamps that stand still, single-media streams of 3–4 messages, headers only) × AVC / HEVC / enhanced HEVC. honest tiny NAL units of every H.264/H.265 type code incl. the RTP aggregation/fragmentation codes; every hostile sequence header is also sent as the opening message of a stream of its own (configuration is parsed only there); RTMP/FLV/TS joiners attach between messages, RTSP (TCP and UDP) subscribers re-join mid-GOP every 10 messages so that the wait-for-key-frame path inspects the hostile NALs. " +
 			"monitors: process liveness (crash signature = panic text + innermost lal frame; driver resumes after the crashing message), a marker frame after each hostile message must reach a pre-attached FLV witness (else, with the publisher connection still open, the stream is stalled), amplification counter (tags delivered between consecutive markers), canary stream on another name after each case. cell = config cell × input class.",
 		Assumptions: []string{"lal closing the publisher's connection on an uninterpretable payload is allowed (the case reconnects)", "amplification bound: 8 + size/100 deliveries per input message, or 10 000 when dummy audio is on (intended gap filling)"},
 		MinCells: 20,
@@ -634,11 +634,23 @@ func c05Run(c *fw.Ctx, i int) {
 				}
 			}
 		}
+		// codec configuration is parsed (picture size for the stat, SDP, PMT probe) only when it is the
+		// FIRST of a stream: hostile sequence headers are therefore also sent as the opening message of
+		// a stream of their own, followed by ordinary frames
+		light := false
+		if hm.Seq == nil && (strings.HasPrefix(hm.Class, "seq-header") || strings.HasPrefix(hm.Class, "sps-huge") || strings.HasPrefix(hm.Class, "asc-") ||
+			strings.HasPrefix(hm.Class, "enhanced-header") || hm.Class == "hevc-parameter-set-stubs" || hm.Class == "aud-sps-pps-1-byte-nals") {
+			light = true
+			hm.Seq = []seqMsg{{hm.Type, 0, hm.Payload}, {9, 0, gen.VideoFrame(r, 6, 7000+k, true, 0, 60)}, {8, 10, gen.AudioFrame(r, 6, 7000+k, 30)}, {9, 40, gen.VideoFrame(r, 6, 7001+k, false, 0, 60)}}
+		}
 		if hm.Seq != nil {
 			// the side session: its own publisher and name, joiners attached from its start
 			sideName := fmt.Sprintf("%s_seq%d", name, k)
 			var sideJoin []*liveConsumer
 			for _, kd := range []string{"rtmp", "flv", "ts"} {
+				if light {
+					break
+				}
 				if (kd == "flv" && !cell.Conf.Flv) || (kd == "ts" && !cell.Conf.Ts) {
 					continue
 				}
@@ -653,7 +665,9 @@ func c05Run(c *fw.Ctx, i int) {
 						break
 					}
 				}
-				time.Sleep(30 * time.Millisecond)
+				if !light {
+					time.Sleep(30 * time.Millisecond)
+				}
 				sp.Close()
 				c.Count("valid_order_sessions", 1)
 			}
